@@ -35,6 +35,7 @@ type g2lFn struct {
 	fnObj   *types.Func           // the function being translated (go2lean_ptr.go)
 	inOut   []*types.Var          // pointer parameters returned as extra results (go2lean_inout.go)
 	eff     *g2lEffFn             // writes through pointers, effect loops (go2lean_effects.go)
+	own     *g2lOwnState          // owned locals, cursors (go2lean_own.go)
 }
 
 func (f *g2lFn) fail(format string, a ...any) {
@@ -305,7 +306,10 @@ func (f *g2lFn) call(c *ast.CallExpr) string {
 	if s, ok := f.callExt(c); ok { // go2lean_string.go: strings, make, Sprintf, primitives with pointer receivers
 		return s
 	}
-	if c.Ellipsis.IsValid() && !f.g.refsOn() { // go2lean_refs.go: variadic functions
+	if s, ok := f.callBytes(c); ok { // go2lean_buffer.go: append(x, y...), buf.Bytes()
+		return s
+	}
+	if c.Ellipsis.IsValid() && !f.g.refsOn() && !f.ellipsisOK(c) { // go2lean_refs.go: variadic functions; go2lean_env.go
 		f.fail("variadic call `%s`", f.src(c))
 	}
 	ftv := f.g.info.Types[c.Fun]
@@ -326,10 +330,10 @@ func (f *g2lFn) call(c *ast.CallExpr) string {
 		return s
 	}
 	sig := fn.Type().(*types.Signature)
-	if sig.Variadic() {
-		if f.g.refsOn() { // go2lean_refs.go
-			return f.variadicCall(c, fn)
-		}
+	if sig.Variadic() && f.g.refsOn() { // go2lean_refs.go
+		return f.variadicCall(c, fn)
+	}
+	if sig.Variadic() && !(c.Ellipsis.IsValid() && f.ellipsisOK(c)) { // go2lean_env.go: a spread slice is passed as it is
 		f.fail("variadic function in `%s`", f.src(c))
 	}
 	key, local := f.calleeKey(fn)
@@ -389,6 +393,9 @@ func (f *g2lFn) builtin(c *ast.CallExpr) string {
 		a := f.args(c.Args)
 		return id.Name + " " + a[0] + " " + a[1]
 	case "append":
+		if s, ok := f.appendSpread(c); ok { // go2lean_env.go
+			return s
+		}
 		if c.Ellipsis.IsValid() || len(c.Args) < 1 {
 			f.fail("`%s`", f.src(c))
 		}
@@ -399,6 +406,9 @@ func (f *g2lFn) builtin(c *ast.CallExpr) string {
 		return a[0] + " ++ [" + strings.Join(a[1:], ", ") + "]"
 	}
 	if s, ok := f.builtinOther(id.Name, c); ok {
+		return s
+	}
+	if s, ok := f.builtinEnv(id.Name, c); ok { // go2lean_env.go
 		return s
 	}
 	f.fail("builtin `%s`", id.Name)
@@ -448,6 +458,9 @@ func (f *g2lFn) composite(x *ast.CompositeLit) string {
 	if s, ok := f.compositeExt(x, t); ok { // go2lean_string.go: map literals
 		return s
 	}
+	if s, ok := f.compositeEnv(x, t); ok { // go2lean_env.go: map literals
+		return s
+	}
 	switch g2lKindOf(t) {
 	case kStruct:
 		n := f.namedOf(t)
@@ -476,6 +489,9 @@ func (f *g2lFn) composite(x *ast.CompositeLit) string {
 		}
 		return s
 	case kList:
+		if s, ok := f.keyedArray(x, t); ok { // go2lean_buffer.go: [N]T{k: v, …}
+			return s
+		}
 		var parts []string
 		for _, el := range x.Elts {
 			if _, ok := el.(*ast.KeyValueExpr); ok {
@@ -493,6 +509,9 @@ func (f *g2lFn) composite(x *ast.CompositeLit) string {
 }
 
 func (f *g2lFn) index(x *ast.IndexExpr) string {
+	if s, ok := f.replaced(x); ok { // go2lean_buffer.go: the comparator of sort.SliceStable
+		return s
+	}
 	t := f.typeOf(x.X)
 	if s, ok := f.indexExt(x, t); ok { // go2lean_string.go: s[i] on strings, m[k] on map literals
 		return s
@@ -524,6 +543,9 @@ func (f *g2lFn) unary(x *ast.UnaryExpr) string {
 	case token.NOT:
 		return f.boolExpr(x)
 	case token.AND:
+		if s, ok := f.addrLit(x); ok { // go2lean_buffer.go: &pkg.T{…} named by a primitive
+			return s
+		}
 		return f.addrOf(x)
 	}
 	f.fail("operator %s in `%s`", x.Op, f.src(x))
@@ -564,6 +586,9 @@ func (f *g2lFn) arith(op token.Token, a, b string, t types.Type, r ast.Expr, who
 				return a + " * 2 ^ " + n
 			}
 			return a + " / 2 ^ " + n
+		}
+		if s, ok := f.intBitOp(op, a, b); ok { // go2lean_buffer.go: | and & on signed integers
+			return s
 		}
 	case kUint:
 		switch op {
@@ -637,6 +662,9 @@ func (f *g2lFn) relation(x *ast.BinaryExpr) string {
 	if s, ok := f.relationOther(x, lt, rt); ok {
 		return s
 	}
+	if s, ok := f.relationEnv(x, lt, rt); ok { // go2lean_env.go
+		return s
+	}
 	// comparison with nil
 	if g2lKindOf(lt) == kPtr || g2lKindOf(rt) == kPtr {
 		isNil := func(e ast.Expr) bool {
@@ -674,6 +702,9 @@ func (f *g2lFn) relation(x *ast.BinaryExpr) string {
 		f.fail("comparison of %s in `%s`", f.g.typeKey(lt), f.src(x))
 	}
 	if g2lKindOf(lt) == kString && x.Op != token.EQL && x.Op != token.NEQ {
+		if s, ok := f.strOrder(x); ok { // go2lean_buffer.go: bytewise order
+			return s
+		}
 		f.fail("string ordering in `%s` (bytewise in Go)", f.src(x))
 	}
 	return g2lPar(f.expr(x.X)) + " " + g2lRel(x.Op) + " " + g2lPar(f.expr(x.Y))
